@@ -1,8 +1,47 @@
-from fsv import Query
+from fsv import Query, CustomQuery
+import fsv
+import json
+import os
+import sys
+import time
 
-EXPLANATION = ('(a) thread_pool<size_t>::blocks (constructor, start, end, num_blocks) executed symbolically: range start, length and '
+
+def hb_query(q, prop, seed, outdir):
+    sys.path.insert(0, os.path.join(fsv.VERIF, 'tools'))
+    import pool_hb
+    wd = os.path.join(fsv.BUILD, 'pool_hb')
+    os.makedirs(wd, exist_ok=True)
+    # z3's python API lives in the tooling venv (python3-vt)
+    rc, o, e, w, _ = fsv.sh(['python3-vt', os.path.join(fsv.VERIF, 'tools', 'pool_hb.py'), wd], timeout=600, env=dict(os.environ, FSV_REPO=fsv.REPO))
+    if rc != 0:
+        return dict(verdict='ERROR', error='pool_hb failed: ' + (e or o)[-1500:])
+    js = json.loads(o.strip().split('\n')[-1])
+    roles, nops, race, st = js['roles'], js['nops'], js['race'], js['stats']
+    r = dict(functions=['fastscapelib::thread_pool<size_t>::run_tasks', 'fastscapelib::thread_pool<size_t>::was_empty',
+                        'fastscapelib::thread_pool<size_t>::start()::lambda (worker loop)', 'fastscapelib::thread_pool<size_t>::set_tasks'],
+             cbmc=dict(status='z3 ' + st['z3_result'], solver='z3 (python API)', solver_s=st['z3_s'], vccs=st['candidate_pairs'], remaining=st['candidate_pairs'], props=st['candidate_pairs']),
+             witness=dict(reachable=True, status='events extracted: %d atomic operations attributed to thread_pool_inl.hpp' % nops),
+             bounds=dict(q.bounds, memory_orders={k: dict(order=v['order'], line=v['line'], source=v['source']) for k, v in roles.items()}, sw=st['sw']))
+    if not race:
+        r['verdict'] = 'PASS'
+        return r
+    cex = os.path.join(outdir, q.qid + '.cex')
+    open(cex, 'w').write(json.dumps(dict(racy_pairs=race, orders=st['orders']), indent=1) + '\n')
+    ok, rep = pool_hb.tsan_replay(fsv.REPO, wd)
+    r.update(cex=cex, custom='pool_hb', cex_description='conflicting non-atomic accesses unordered by happens-before: %s' % race,
+             cex_inputs=dict(racy_pairs=str(race), orders=str(st['orders'])), replay_out=(rep or '')[-1500:], replay_rc=1 if ok else 0)
+    if ok:
+        r['verdict'] = 'CEX'
+    else:
+        r.update(verdict='ERROR', error='z3 reports a race that ThreadSanitizer did not reproduce on the real pool (%s)' % (rep or '')[:200])
+    return r
+
+EXPLANATION = ('(c) publish/consume handshake of run_tasks / worker loop / was_empty: memory orders read from the LLVM IR of the real code, happens-before decided by z3 over a 10-event skeleton; counter-example confirmed by ThreadSanitizer on the real pool. ' +
+               '(a) thread_pool<size_t>::blocks (constructor, start, end, num_blocks) executed symbolically: range start, length and '
                'min block size are symbolic, pool size concrete per query')
-ASSUMPTIONS = ['part (a) only in this check: the block partition arithmetic; range length <= RANGE, min_size <= MINMAX, first <= 10^6 (no wrap-around of first+len)',
+ASSUMPTIONS = ['part (c): the event skeleton of one round (who writes/reads p_jobs, job closures, results, in which order around the four flag accesses) is written by hand in tools/pool_hb.py and its four atomic accesses are located in the IR by source text; a change of the skeleton makes the extraction fail (check error), not pass',
+               'part (b) (lost wake-ups, deadlock over pause/resume/resize/stop) is NOT decided',
+               'part (a): the block partition arithmetic; range length <= RANGE, min_size <= MINMAX, first <= 10^6 (no wrap-around of first+len)',
                'pool size >= 1 (the library never builds a pool of size 0 before run_blocks)']
 
 
@@ -14,4 +53,6 @@ def queries(tier, kfs):
         qs.append(Query('blocks.pool%d' % p, 'pool_blocks.cpp', 'c11_blocks.c', {}, dict(POOL=p, RANGE=rng, MINMAX=mm), unwind=18,
                         solver='cadical', safety=True, timeout=900 if tier == 'quick' else 7200, shim=False,
                         bounds=dict(pool_size=p, range_len='1..%d' % rng, min_size='0..%d' % mm, first='0..10^6')))
+    qs.append(CustomQuery('handshake.happens_before', hb_query,
+                          bounds=dict(round='one run_blocks round: publish job i, worker i takes it, runs it, clears the flag, caller observes', workers='any (per-worker flag)', events=10)))
     return qs
